@@ -162,10 +162,19 @@ def finish(rep: Report, level_text: str) -> int:
         print(f"observation: {o}")
     evdir = VERIF / "evidence"
     if os.environ.get("VERIF_NO_EVIDENCE"):
-        import tempfile as _tf
+        # scratch runs (self-tests on copies) must not touch the evidence of the real tree: replay files go next to the analysed copy
+        # when the caller says where (VERIF_SCRATCH_DIR, removed by the caller), else into a temporary directory created only if
+        # there is something to write
+        if os.environ.get("VERIF_SCRATCH_DIR"):
+            evdir = Path(os.environ["VERIF_SCRATCH_DIR"]) / "verif_ev"
+        elif new:
+            import tempfile as _tf
 
-        evdir = Path(_tf.mkdtemp(prefix="verif_ev_"))
-    evdir.mkdir(exist_ok=True)
+            evdir = Path(_tf.mkdtemp(prefix="verif_ev_"))
+        else:
+            evdir = Path(os.devnull)
+    if str(evdir) != os.devnull:
+        evdir.mkdir(parents=True, exist_ok=True)
     replay_paths = []
     rdir = evdir / "replay"
     if rdir.is_dir():
